@@ -404,6 +404,9 @@ def _fkey(f):
 def _gtexts(fs, fmt, ords=None):
     out = []
     for f in fs:
+        e = f.get("expr")
+        if isinstance(e, tuple) and e and e[0] == "agg" and isinstance(e[2], str) and str(f["val"]) == e[2]:
+            continue    # `Ok(x) is Ok`: a test decided by construction says nothing about the path
         try:
             out.append("%s is %s" % (render_n(f["expr"], ords), f["val"]))
         except Exception:
